@@ -104,98 +104,138 @@ func runServiceRules(c *Ctx) {
 			}
 		}
 	}
-	newBoth := map[string]bool{}
+	// The guards are read path by path through one trip around the row loop (a store may be reached under `new ||
+	// date.Before(start)`, which is two paths, not one dominating condition).
+	var rowLoop *Loop
+	for _, l := range naturalLoops(fn) {
+		if iff, ok := l.Header.Instrs[len(l.Header.Instrs)-1].(*ssa.If); ok {
+			if call, ok := iff.Cond.(*ssa.Call); ok && calleeName(call) == "(*"+modPath+"/csv.File).NextRow" {
+				rowLoop = l
+			}
+		}
+	}
+	if rowLoop == nil {
+		c.Undecided("SVC", fname, "create-or-extend", p.pos(fn.Pos()), "the row loop of parseCalendarDates was not found")
+		return
+	}
+	paths := iterationPaths(rowLoop)
+	// factsBefore: the branch outcomes on the path before it enters block blk (nil, false if blk is not on the path)
+	factsBefore := func(pf pathFacts, blk *ssa.BasicBlock) ([]condEdge, bool) {
+		for i, b2 := range pf.blocks {
+			if b2 == blk {
+				var out []condEdge
+				for _, f := range pf.facts {
+					if f.at < i {
+						out = append(out, f.ce)
+					}
+				}
+				return out, true
+			}
+		}
+		return nil, false
+	}
+	isNewFact := func(ce condEdge) bool {
+		cond, val := ce.Cond, ce.Val
+		for {
+			u, isNot := cond.(*ssa.UnOp)
+			if !isNot || u.Op != token.NOT {
+				break
+			}
+			cond, val = u.X, !val
+		}
+		return cond == okFlag && !val
+	}
 	for _, fs := range stores {
 		if fs.field != "StartDate" && fs.field != "EndDate" {
 			continue
 		}
 		valExpr := b.bind(fs.st.Val)
 		okVal := strings.Contains(valExpr, "(col:date") && b.headClass(valExpr) == "(string)→(time.Time,error)"
-		guard := ""
-		for _, ce := range dominatingConds(fs.st.Block()) {
-			cond, val := ce.Cond, ce.Val
-			if u, isNot := cond.(*ssa.UnOp); isNot && u.Op == token.NOT {
-				cond, val = u.X, !val
+		guards := map[string]bool{}
+		unguarded := false
+		nOn := 0
+		for _, pf := range paths {
+			facts, on := factsBefore(pf, fs.st.Block())
+			if !on {
+				continue
 			}
-			if cond == okFlag && !val {
-				guard = "new"
+			nOn++
+			g := ""
+			for _, ce := range facts {
+				if isNewFact(ce) {
+					g = "new"
+				}
+				cond, val := ce.Cond, ce.Val
+				if u, isNot := cond.(*ssa.UnOp); isNot && u.Op == token.NOT {
+					cond, val = u.X, !val
+				}
+				if call, isCall := cond.(*ssa.Call); isCall && calleeName(call) == "(time.Time).Before" && val && g == "" {
+					own := canon(call.Call.Args[0])
+					other := canon(call.Call.Args[1])
+					if fs.field == "StartDate" && isDateVal(call.Call.Args[0], fn) && strings.HasSuffix(other, ".StartDate)") {
+						g = "date.Before(StartDate)"
+					}
+					if fs.field == "EndDate" && strings.HasSuffix(own, ".EndDate)") && isDateVal(call.Call.Args[1], fn) {
+						g = "EndDate.Before(date)"
+					}
+				}
 			}
-			if call, isCall := cond.(*ssa.Call); isCall && calleeName(call) == "(time.Time).Before" && val {
-				recv := b.bind(call.Call.Args[0])
-				arg := b.bind(call.Call.Args[1])
-				isDate := func(s string) bool {
-					return strings.Contains(s, "parseTime(col:date") && !strings.Contains(s, "StartDate") && !strings.Contains(s, "EndDate")
-				}
-				own := canon(call.Call.Args[0])
-				other := canon(call.Call.Args[1])
-				_ = recv
-				_ = arg
-				if fs.field == "StartDate" && isDateVal(call.Call.Args[0], fn) && strings.HasSuffix(other, ".StartDate)") {
-					guard = "date.Before(StartDate)"
-				}
-				if fs.field == "EndDate" && strings.HasSuffix(own, ".EndDate)") && isDateVal(call.Call.Args[1], fn) {
-					guard = "EndDate.Before(date)"
-				}
-				_ = isDate
+			if g == "" {
+				unguarded = true
+			} else {
+				guards[g] = true
 			}
 		}
-		if guard == "new" {
-			newBoth[fs.field] = true
+		var gl []string
+		for g := range guards {
+			gl = append(gl, g)
 		}
-		c.Check(okVal && guard != "", "SVC", fname, "range extension of "+fs.field, p.ipos(fs.st), "stores the exception's date under guard: "+guard, fmt.Sprintf("%s is assigned %s without the guard that keeps start <= date <= end (new service, or date before start / end before date)", fs.field, clip(valExpr, 60)))
+		sort.Strings(gl)
+		c.Check(okVal && !unguarded && nOn > 0, "SVC", fname, "range extension of "+fs.field, p.ipos(fs.st), "stores the exception's date, on every path under: "+strings.Join(gl, " or "), fmt.Sprintf("%s is assigned %s without the guard that keeps start <= date <= end (new service, or date before start / end before date)", fs.field, clip(valExpr, 60)))
 	}
-	// on the !ok edge both ends are set on every path to the join
-	var notOkBlock *ssa.BasicBlock
-	for _, blk := range fn.Blocks {
-		if iff, ok := blk.Instrs[len(blk.Instrs)-1].(*ssa.If); ok {
-			cond := iff.Cond
-			neg := false
-			if u, isNot := cond.(*ssa.UnOp); isNot && u.Op == token.NOT {
-				cond, neg = u.X, true
-			}
-			if cond == okFlag {
-				if neg {
-					notOkBlock = blk.Succs[0]
-				} else {
-					notOkBlock = blk.Succs[1]
-				}
+	// on every path on which the service turned out to be new, both ends are set afterwards
+	okBoth, nNew := true, 0
+	for _, pf := range paths {
+		newAt := -1
+		for _, f := range pf.facts {
+			if isNewFact(f.ce) && newAt < 0 {
+				newAt = f.at
 			}
 		}
-	}
-	okBoth := false
-	if notOkBlock != nil {
-		okBoth = true
-		// every path from notOkBlock until blocks no longer dominated by it contains both stores
-		var rec func(b2 *ssa.BasicBlock, seen map[string]bool, visited map[*ssa.BasicBlock]bool)
-		rec = func(b2 *ssa.BasicBlock, seen map[string]bool, visited map[*ssa.BasicBlock]bool) {
-			if visited[b2] {
-				return
+		if newAt < 0 {
+			continue
+		}
+		nNew++
+		set := map[string]bool{}
+		for i, blk := range pf.blocks {
+			if i <= newAt {
+				continue
 			}
-			visited[b2] = true
-			cur := map[string]bool{}
-			for k := range seen {
-				cur[k] = true
-			}
-			for _, in := range b2.Instrs {
+			for _, in := range blk.Instrs {
 				if st, ok := in.(*ssa.Store); ok {
 					if fa, ok := st.Addr.(*ssa.FieldAddr); ok && fa.X == ssa.Value(svc) {
-						cur[fieldName(fa.X.Type(), fa.Field)] = true
+						set[fieldName(fa.X.Type(), fa.Field)] = true
 					}
 				}
-			}
-			for _, s := range b2.Succs {
-				if !notOkBlock.Dominates(s) {
-					if !cur["StartDate"] || !cur["EndDate"] {
-						okBoth = false
-					}
-					continue
-				}
-				rec(s, cur, visited)
 			}
 		}
-		rec(notOkBlock, map[string]bool{}, map[*ssa.BasicBlock]bool{})
+		// only paths that write the service back matter: a row rejected later leaves no trace anyway
+		writesBack := false
+		for i, blk := range pf.blocks {
+			if i <= newAt {
+				continue
+			}
+			for _, in := range blk.Instrs {
+				if mu, ok := in.(*ssa.MapUpdate); ok && typeName(mu.Value.Type()) == "gtfs.Service" {
+					writesBack = true
+				}
+			}
+		}
+		if writesBack && (!set["StartDate"] || !set["EndDate"]) {
+			okBoth = false
+		}
 	}
-	c.Check(okBoth, "SVC", fname, "a service first seen in calendar_dates starts and ends on that date", p.pos(fn.Pos()), "on the !ok edge every path sets both StartDate and EndDate", "for a service without a calendar row some path sets only one of StartDate/EndDate: the other stays the zero time and the range does not cover the exception date")
+	c.Check(okBoth && nNew > 0, "SVC", fname, "a service first seen in calendar_dates starts and ends on that date", p.pos(fn.Pos()), fmt.Sprintf("on each of the %d paths that find no existing service and store one, both StartDate and EndDate are set", nNew), "for a service without a calendar row some path sets only one of StartDate/EndDate: the other stays the zero time and the range does not cover the exception date")
 	// SV3: exception table
 	for _, want := range []struct{ field, digit string }{{"AddedDates", "1"}, {"RemovedDates", "2"}} {
 		n := 0
@@ -204,16 +244,31 @@ func runServiceRules(c *Ctx) {
 				continue
 			}
 			n++
-			guarded := false
-			for _, ce := range dominatingConds(fs.st.Block()) {
-				if bo, ok := ce.Cond.(*ssa.BinOp); ok && bo.Op == token.EQL && ce.Val {
-					if s, isS := constString(bo.Y); isS && s == want.digit && strings.Contains(b.bind(bo.X), "col:exception_type") {
-						guarded = true
+			guarded, nOn := true, 0
+			for _, pf := range paths {
+				facts, on := factsBefore(pf, fs.st.Block())
+				if !on {
+					continue
+				}
+				nOn++
+				has := false
+				for _, ce := range facts {
+					cond, val := normalizeCond(ce.Cond, ce.Val)
+					bo, ok := cond.(*ssa.BinOp)
+					if !ok {
+						continue
 					}
+					eq := (bo.Op == token.EQL && val) || (bo.Op == token.NEQ && !val)
+					if s, isS := constString(bo.Y); eq && isS && s == want.digit && strings.Contains(b.bind(bo.X), "col:exception_type") {
+						has = true
+					}
+				}
+				if !has {
+					guarded = false
 				}
 			}
 			okApp := isAppendOf(fs.st.Val, fs.st.Addr) && isDateVal(appendedOne(fs.st.Val), fn)
-			c.Check(guarded && okApp, "SVC", fname, want.field+" <- exception_type "+want.digit, p.ipos(fs.st), "the row's date is appended exactly under exception_type == \""+want.digit+"\"", "dates are added to "+want.field+" under another exception type, or something other than the row's date is appended")
+			c.Check(guarded && nOn > 0 && okApp, "SVC", fname, want.field+" <- exception_type "+want.digit, p.ipos(fs.st), "the row's date is appended, on every path, under exception_type == \""+want.digit+"\"", "dates are added to "+want.field+" under another exception type, or something other than the row's date is appended")
 		}
 		if n == 0 {
 			c.Violated("SVC", fname, want.field+" <- exception_type "+want.digit, p.pos(fn.Pos()), want.field+" is never filled")
@@ -556,4 +611,62 @@ func runAlertRules(c *Ctx) {
 	}
 	okDir = okDir && sawF && sawT
 	c.Check(okDir, "ALERT", fname, "fallback direction is the single named direction", p.pos(fn.Pos()), "False is stored under directions[False], True otherwise; the both-directions fallback leaves it unspecified", fmt.Sprintf("fallback direction stores: %v", dirStores))
+}
+
+// pathFacts: one acyclic path of one trip around a loop, with the branch outcomes taken along it (at = index of the
+// block that ends in the branch).
+type pathFact struct {
+	ce condEdge
+	at int
+}
+type pathFacts struct {
+	blocks []*ssa.BasicBlock
+	facts  []pathFact
+	back   bool
+}
+
+// iterationPaths: the acyclic paths from the loop body's entry to the back edge or out of the loop.
+func iterationPaths(l *Loop) []pathFacts {
+	var out []pathFacts
+	if len(l.Header.Succs) == 0 {
+		return nil
+	}
+	start := l.Header.Succs[0]
+	if !l.Blocks[start] && len(l.Header.Succs) > 1 {
+		start = l.Header.Succs[1]
+	}
+	pathsWithin(start, l, func(path []*ssa.BasicBlock, back bool) {
+		pf := pathFacts{blocks: path, back: back}
+		for i := 0; i+1 < len(path); i++ {
+			blk := path[i]
+			if iff, ok := blk.Instrs[len(blk.Instrs)-1].(*ssa.If); ok && blk.Succs[0] != blk.Succs[1] {
+				pf.facts = append(pf.facts, pathFact{condEdge{Cond: iff.Cond, Val: blk.Succs[0] == path[i+1], If: iff}, i})
+			}
+		}
+		// the branch of the last block (towards the header or out of the loop)
+		if n := len(path); n > 0 {
+			blk := path[n-1]
+			if iff, ok := blk.Instrs[len(blk.Instrs)-1].(*ssa.If); ok && blk.Succs[0] != blk.Succs[1] {
+				var next *ssa.BasicBlock
+				for _, sc := range blk.Succs {
+					if (back && sc == l.Header) || (!back && !l.Blocks[sc]) {
+						next = sc
+					}
+				}
+				if next != nil {
+					pf.facts = append(pf.facts, pathFact{condEdge{Cond: iff.Cond, Val: blk.Succs[0] == next, If: iff}, n - 1})
+				}
+			}
+		}
+		// the same condition value cannot come out both ways within one trip: such a path is not feasible
+		seen := map[ssa.Value]bool{}
+		for _, f := range pf.facts {
+			if v, ok := seen[f.ce.Cond]; ok && v != f.ce.Val {
+				return
+			}
+			seen[f.ce.Cond] = f.ce.Val
+		}
+		out = append(out, pf)
+	})
+	return out
 }
